@@ -56,11 +56,22 @@ func init() {
 		"github.com/google/go-cmp/cmp/cmpopts.EquateEmpty": func(fr *frame, args []value) value {
 			return iface{t: types.Typ[types.Int], v: cmpOpt{"equate-empty"}}
 		},
-		"internal/bytealg.IndexByteString":   extIndexByteString,
-		"internal/bytealg.CountString":       extCountString,
-		"strings.Index":                      extStringsIndex,
-		"strings.IndexByte":                  extIndexByteString,
-		"strings.Count":                      extStringsCount,
+		"internal/bytealg.IndexByteString": extIndexByteString,
+		"internal/bytealg.CountString":     extCountString,
+		"strings.Index":                    extStringsIndex,
+		"strings.IndexByte":                extIndexByteString,
+		"strings.Count":                    extStringsCount,
+		"strings.LastIndex": func(fr *frame, args []value) value {
+			i := fr.i
+			s, sep := args[0], args[1]
+			n, m := strLen(s), strLen(sep)
+			for k := n - m; k >= 0; k-- {
+				if i.ps.decide(i.strEq(i.strSlice(s, k, k+m), sep)) {
+					return k
+				}
+			}
+			return -1
+		},
 		"strings.Contains":                   extStringsContains,
 		"strings.Repeat":                     extStringsRepeat,
 		"strconv.Itoa":                       extItoa,
